@@ -46,6 +46,7 @@ func substrate(c *Ctx, which string) []*RuleResult {
 			prefixFilter(c.rule("R33", ruleR33), "R33", "substrate doubly linked list: index walks land on the requested element from either end", 3, "R33:lists/doublylinkedlist"),
 			prefixFilter(c.rule("R12", ruleR12), "R12", "substrate doubly linked list: the size counter moves only with the chain", 3, "R12b:lists/doublylinkedlist", "R12c:lists/doublylinkedlist", "R12e:lists/doublylinkedlist"),
 			prefixFilter(c.rule("R5", ruleR5), "R5", "substrate doubly linked list: index parameters are range-checked before use", 4, "R5a:lists/doublylinkedlist", "R5b:lists/doublylinkedlist"),
+			prefixFilter(c.rule("R39", ruleR39), "R39", "substrate doubly linked list: removing an element keeps first/last on the real ends", 1, "R39:lists/doublylinkedlist"),
 		}
 	case "sll":
 		return []*RuleResult{
@@ -53,6 +54,7 @@ func substrate(c *Ctx, which string) []*RuleResult {
 			prefixFilter(c.rule("R12", ruleR12), "R12", "substrate singly linked list: the size counter moves only with the chain", 3, "R12b:lists/singlylinkedlist", "R12c:lists/singlylinkedlist", "R12e:lists/singlylinkedlist"),
 			prefixFilter(c.rule("R27", ruleR27), "R27", "substrate singly linked list: an emptied list resets the ends its operations rely on", 1, "R27:lists/singlylinkedlist"),
 			prefixFilter(c.rule("R5", ruleR5), "R5", "substrate singly linked list: index parameters are range-checked before use", 4, "R5a:lists/singlylinkedlist", "R5b:lists/singlylinkedlist"),
+			prefixFilter(c.rule("R39", ruleR39), "R39", "substrate singly linked list: removing an element keeps first/last on the real ends", 1, "R39:lists/singlylinkedlist"),
 		}
 	case "arraylist":
 		return []*RuleResult{
@@ -145,10 +147,11 @@ func init() {
 			prefixFilter(c.rule("R21b", ruleR21b), "R21b", "B-tree: rebalance is keyed by the node's own key", 1, "R21b:btree.rebalance-key"))
 	}}
 	properties["C03"] = propDef{run: func(c *Ctx) *PropertyRun {
-		return pr("other", "Decided: (R5a) every use of an index parameter of Get/Remove/Insert/Set/Swap on the three lists is dominated by withinRange(index)==true; (R5b) with an out-of-range index nothing is written except the documented append (a call to Add guarded by index == size); (R23w) withinRange ≡ 0 <= i < Size() on all three; (R7) an empty variadic list leaves no nil pointer to dereference; (R12b,c,e) the linked lists' size counters move only with allocate-and-link / guarded unlink; (R23s) Sort = SortFunc(Values(), comparator) then Clear; Add; (R23c) Contains(xs...) exactness; (R20) Append ≡ Add; (R30) the array list's length — its Size() — is replayed symbolically through every method: Add/Insert grow it by exactly len(values), Remove shrinks it by one, growBy(n) by n, resize(l, c) sets l, shrink/Sort/Swap/Set keep it, Clear zeroes it (reallocation thresholds cannot pad or truncate the sequence); (R33) every index-driven pointer walk of the linked lists keeps pos(pointer) = counter + d as a loop invariant (first ↦ 0, last ↦ size-1, next/prev ↦ ±1), walks from the head and from the tail land on the same positions relative to the index, and one pointer lands exactly on it; (R38) Swap exchanges the two requested positions crosswise with both values read first, Prepend's head insertion runs over the values from the last to the first, the array list's Insert splices (old contents, index, values), IndexOf reports the position it matched. Not decided: that pointer surgery in the linked Insert/Remove yields the spliced sequence; traversal-direction arithmetic; array-list grow/shrink thresholds; IndexOf results."+notBehaviour,
-			c.rule("R5", ruleR5), c.rule("R7", ruleR7), c.rule("R25", ruleR25), c.rule("R27", ruleR27), c.rule("R30", ruleR30), c.rule("R33", ruleR33), prefixFilter(c.rule("R38", ruleR38), "R38", "LISTOPS: Swap exchanges crosswise, Prepend keeps the passed order, Insert splices at the index, IndexOf reports where it found the value", 8, "R38:swap:", "R38:prepend:", "R38:indexof:", "R38:insert:"),
+		return pr("other", "Decided: (R5a) every use of an index parameter of Get/Remove/Insert/Set/Swap on the three lists is dominated by withinRange(index)==true; (R5b) with an out-of-range index nothing is written except the documented append (a call to Add guarded by index == size); (R23w) withinRange ≡ 0 <= i < Size() on all three; (R7) an empty variadic list leaves no nil pointer to dereference; (R12b,c,e) the linked lists' size counters move only with allocate-and-link / guarded unlink; (R23s) Sort = SortFunc(Values(), comparator) then Clear; Add; (R23c) Contains(xs...) exactness; (R20) Append ≡ Add; (R30) the array list's length — its Size() — is replayed symbolically through every method: Add/Insert grow it by exactly len(values), Remove shrinks it by one, growBy(n) by n, resize(l, c) sets l, shrink/Sort/Swap/Set keep it, Clear zeroes it (reallocation thresholds cannot pad or truncate the sequence); (R33) every index-driven pointer walk of the linked lists keeps pos(pointer) = counter + d as a loop invariant (first ↦ 0, last ↦ size-1, next/prev ↦ ±1), walks from the head and from the tail land on the same positions relative to the index, and one pointer lands exactly on it; (R38) Swap exchanges the two requested positions crosswise with both values read first, Prepend's head insertion runs over the values from the last to the first, the array list's Insert splices (old contents, index, values), IndexOf reports the position it matched; (R39) a path that unlinks one element either moves first/last or knows by comparison that the removed element is not that end; (R2b) no list retains a slice its caller handed in (Add/Insert/New copy the values: the element at an index changes only through the list). Not decided: that pointer surgery in the linked Insert/Remove yields the spliced sequence; traversal-direction arithmetic; array-list grow/shrink thresholds; IndexOf results."+notBehaviour,
+			c.rule("R5", ruleR5), c.rule("R7", ruleR7), c.rule("R25", ruleR25), c.rule("R27", ruleR27), c.rule("R30", ruleR30), c.rule("R33", ruleR33), c.rule("R39", ruleR39), prefixFilter(c.rule("R38", ruleR38), "R38", "LISTOPS: Swap exchanges crosswise, Prepend keeps the passed order, Insert splices at the index, IndexOf reports where it found the value", 8, "R38:swap:", "R38:prepend:", "R38:indexof:", "R38:insert:"),
 			prefixFilter(c.rule("R12", ruleR12), "R12", "SIZE: linked-list counters", 6, "R12b:lists/", "R12c:lists/", "R12e:lists/"),
 			prefixFilter(c.rule("R23", ruleR23), "R23", "LISTS: Contains, Sort, withinRange of the three lists", 9, "R23c:lists/", "R23s:lists/", "R23w:lists/"),
+			prefixFilter(c.rule("R2b", ruleR2b), "R2b", "OWNED: a list keeps no slice a caller handed in (an element at index i changes only through the list)", 12, "R2b:lists/"),
 			rolesFor(c, "C03"))
 	}}
 	properties["C04"] = propDef{run: func(c *Ctx) *PropertyRun {
